@@ -47,10 +47,13 @@ const (
 	OpExit
 	OpPostUnlock
 	OpTryLock
+	OpPlainStore
+	OpPlainLoad
+	OpSpawn
 )
 
 var opNames = [...]string{"start", "lock", "unlock", "wait", "waitwake", "signal", "broadcast", "intn",
-	"loadu32", "storeu32", "mapload", "maploadorstore", "yield", "exit", "postunlock", "trylock"}
+	"loadu32", "storeu32", "mapload", "maploadorstore", "yield", "exit", "postunlock", "trylock", "plainstore", "plainload", "spawn"}
 
 func (k OpKind) String() string { return opNames[k] }
 
@@ -63,6 +66,13 @@ type Op struct {
 	Hit  bool   // map Load found / LoadOrStore loaded
 	Woke []int  // threads woken by Signal / Broadcast
 	Tag  string // Yield tag
+	Obj  any    // identity of the object operated on (mutex / cond pointer, address, map), for the happens-before checker
+}
+
+// Event is one executed operation in global execution order (start segments included).
+type Event struct {
+	T  int
+	Op Op
 }
 
 // Step is what one granted thread did until its next scheduling point.
@@ -106,6 +116,7 @@ type Outcome struct {
 	StepLimit bool
 	Stuck     bool // a goroutine blocked outside the shim (cannot be controlled)
 	Threads   int
+	Events    []Event // every logged operation, in execution order
 }
 
 type pending struct {
@@ -146,6 +157,7 @@ type Sched struct {
 	aborted  bool
 	panicMsg string
 	maxSteps int
+	events   []Event
 }
 
 // cur is the installed scheduler; set only by Run, which is not re-entrant.
@@ -184,6 +196,9 @@ func (s *Sched) point(k OpKind, mu *Mutex) {
 }
 
 func (s *Sched) logOp(o Op) {
+	if s.running != nil {
+		s.events = append(s.events, Event{T: s.running.id, Op: o})
+	}
 	if s.curStep != nil {
 		s.curStep.Ops = append(s.curStep.Ops, o)
 	}
@@ -354,6 +369,7 @@ loop:
 	}
 	out.Steps, out.Notes, out.Decisions = s.steps, s.notes, s.decs
 	out.Panic, out.Stuck, out.Threads = s.panicMsg, stuck, len(s.threads)
+	out.Events = s.events
 	return out
 }
 
@@ -366,7 +382,8 @@ func Go(f func()) {
 		go f()
 		return
 	}
-	s.spawn(f)
+	t := s.spawn(f)
+	s.logOp(Op{Kind: OpSpawn, R: int64(t.id)})
 }
 
 // Yield is an explicit scheduling point (used by the harness's user functions).
@@ -424,7 +441,7 @@ func (m *Mutex) Lock() {
 		panic("vsync: Lock granted while held")
 	}
 	m.held = true
-	s.logOp(Op{Kind: OpLock})
+	s.logOp(Op{Kind: OpLock, Obj: m})
 }
 
 // TryLock never blocks: it is an ordinary (fine-grained) scheduling point.
@@ -442,7 +459,7 @@ func (m *Mutex) TryLock() bool {
 	if ok {
 		m.held = true
 	}
-	s.logOp(Op{Kind: OpTryLock, Hit: ok})
+	s.logOp(Op{Kind: OpTryLock, Hit: ok, Obj: m})
 	return ok
 }
 
@@ -460,7 +477,7 @@ func (m *Mutex) Unlock() {
 		panic("sync: unlock of unlocked mutex")
 	}
 	m.held = false
-	s.logOp(Op{Kind: OpUnlock})
+	s.logOp(Op{Kind: OpUnlock, Obj: m})
 	if s.postUnl {
 		s.point(OpPostUnlock, nil)
 		s.logOp(Op{Kind: OpPostUnlock})
@@ -496,7 +513,7 @@ func (c *Cond) Wait() {
 	m.held = false
 	t.notified = false
 	c.waiters = append(c.waiters, t)
-	s.logOp(Op{Kind: OpWait})
+	s.logOp(Op{Kind: OpWait, Obj: m})
 	// blocked until notified and the mutex is free: always a scheduling point
 	t.pend = pending{OpWaitWake, m}
 	s.yield <- t
@@ -508,7 +525,7 @@ func (c *Cond) Wait() {
 		panic("vsync: Wait resumed while not runnable")
 	}
 	m.held = true
-	s.logOp(Op{Kind: OpWaitWake})
+	s.logOp(Op{Kind: OpWaitWake, Obj: m})
 }
 
 func (c *Cond) Signal() {
@@ -561,7 +578,7 @@ func (m *Map) Load(key any) (value any, ok bool) {
 	}
 	value, ok = m.m[key]
 	if s.self() != nil {
-		s.logOp(Op{Kind: OpMapLoad, Key: key, Hit: ok})
+		s.logOp(Op{Kind: OpMapLoad, Key: key, Hit: ok, Obj: m})
 	}
 	return
 }
@@ -580,7 +597,7 @@ func (m *Map) LoadOrStore(key, value any) (actual any, loaded bool) {
 		actual = value
 	}
 	if s.self() != nil {
-		s.logOp(Op{Kind: OpMapLoadOrStore, Key: key, Hit: loaded})
+		s.logOp(Op{Kind: OpMapLoadOrStore, Key: key, Hit: loaded, Obj: m})
 	}
 	return
 }
@@ -594,7 +611,7 @@ func LoadUint32(addr *uint32) uint32 {
 	}
 	s.point(OpLoadU32, nil)
 	v := *addr
-	s.logOp(Op{Kind: OpLoadU32, N: int64(v)})
+	s.logOp(Op{Kind: OpLoadU32, N: int64(v), Obj: addr})
 	return v
 }
 
@@ -606,7 +623,7 @@ func StoreUint32(addr *uint32, val uint32) {
 	}
 	s.point(OpStoreU32, nil)
 	*addr = val
-	s.logOp(Op{Kind: OpStoreU32, N: int64(val)})
+	s.logOp(Op{Kind: OpStoreU32, N: int64(val), Obj: addr})
 }
 
 // ---------------------------------------------------------------- math/rand
@@ -631,4 +648,33 @@ func Intn(n int) int {
 	}
 	s.logOp(Op{Kind: OpIntn, N: int64(n), R: int64(r)})
 	return r
+}
+
+// ---------------------------------------------------------------- plain (non-atomic) accesses
+
+// PlainStore / PlainLoad stand for an ordinary assignment to / read of a shared variable in the instrumented
+// copy (pargen rewrites `e.result = v` and reads of e.result into them).  They are scheduling points in the
+// fine modes, so the accesses can be separated from the synchronisation operations around them, and they are
+// logged with the address, so that the runner can check that conflicting accesses are ordered by
+// happens-before.
+func PlainStore[T any](p *T, v T) {
+	s := cur
+	if s.self() == nil {
+		*p = v
+		return
+	}
+	s.point(OpPlainStore, nil)
+	*p = v
+	s.logOp(Op{Kind: OpPlainStore, Obj: p})
+}
+
+func PlainLoad[T any](p *T) T {
+	s := cur
+	if s.self() == nil {
+		return *p
+	}
+	s.point(OpPlainLoad, nil)
+	v := *p
+	s.logOp(Op{Kind: OpPlainLoad, Obj: p})
+	return v
 }
